@@ -376,6 +376,16 @@ func c09RunRtpfb(t *testing.T, ops []string, o *Out) {
 					continue
 				}
 				queue = append(queue, fb)
+			} else if f[1] == "other" && len(f) == 2 {
+				// an RTCP packet that is no congestion-control feedback; the kind rotates, the model has one `other`
+				switch len(queue) % 3 {
+				case 0:
+					queue = append(queue, &rtcp.ReceiverReport{SSRC: 9, Reports: []rtcp.ReceptionReport{{SSRC: 1, LastSequenceNumber: 5}}})
+				case 1:
+					queue = append(queue, &rtcp.PictureLossIndication{SenderSSRC: 9, MediaSSRC: 1})
+				default:
+					queue = append(queue, &rtcp.TransportLayerNack{SenderSSRC: 9, MediaSSRC: 1, Nacks: []rtcp.NackPair{{PacketID: 0}}})
+				}
 			} else {
 				o.P("bad-op")
 			}
@@ -827,7 +837,7 @@ func c09GenAdapter(r *Rng, tier string, idx int) Case {
 	return Case{Class: cl, Ops: ops}
 }
 
-var c09RtpfbClasses = []string{"conv-twcc", "conv-ccfb", "twcc-recorder", "ccfb-recorder", "twcc-hand", "ccfb-hand", "history", "inflight"}
+var c09RtpfbClasses = []string{"conv-twcc", "conv-ccfb", "twcc-recorder", "ccfb-recorder", "twcc-hand", "ccfb-hand", "history", "inflight", "idle-reads"}
 
 func c09GenRtpfb(r *Rng, tier string, idx int) Case {
 	cl := c09RtpfbClasses[idx%len(c09RtpfbClasses)]
@@ -976,6 +986,137 @@ func c09GenRtpfb(r *Rng, tier string, idx int) Case {
 			}
 		}
 		ops = append(ops, "hbuild", "hsizes")
+	case "idle-reads":
+		// F-40: RTCP reads that carry NO acknowledgement of a sent packet as arrived — an empty compound,
+		// receiver reports / PLI / NACK, feedback about unknown SSRCs or never-sent numbers, feedback that
+		// only says "not received" — interleaved BEFORE, BETWEEN and AFTER the first real acknowledgements,
+		// from the very first packet of the session (history counter 0) on.  The property: such a read
+		// reports nothing new and drops nothing; the packets stay reportable by their real acknowledgement.
+		useTW := r.Bool()
+		ssrc := uint32(r.Range(1, 5))
+		seq := r.Pick(0, 1, 65534, r.Intn(65536))
+		tw := r.Pick(0, 1, 65534, r.Intn(65536))
+		var sent []c09Sent // packets sent and not yet really acknowledged
+		send := func(k int) {
+			for ; k > 0; k-- {
+				if useTW {
+					ops = append(ops, sendOp(ssrc, seq, true, tw, r.Range(0, 1200)))
+				} else {
+					ops = append(ops, sendOp(ssrc, seq, false, -1, r.Range(0, 1200)))
+				}
+				sent = append(sent, c09Sent{ssrc: ssrc, seq: uint16(seq), tw: uint16(tw), ms: ms})
+				seq++
+				tw++
+				ms += int64(r.Range(0, 12))
+			}
+		}
+		ccfbOp := func(s uint32, begin int, recv []bool) string {
+			fb := &rtcp.CCFeedbackReport{ReportTimestamp: verifhooks.ToNTP32(c09At(ms))}
+			rb := rtcp.CCFeedbackReportBlock{MediaSSRC: s, BeginSequence: uint16(begin)}
+			for _, ok := range recv {
+				mb := rtcp.CCFeedbackMetricBlock{Received: ok}
+				if ok {
+					mb.ECN = rtcp.ECN(r.Intn(4))
+					mb.ArrivalTimeOffset = uint16(r.Intn(0x1FFE))
+				}
+				rb.MetricBlocks = append(rb.MetricBlocks, mb)
+			}
+			fb.ReportBlocks = append(fb.ReportBlocks, rb)
+			return "q ccfb " + c09CCFBOp(fb, c09At(ms), false)
+		}
+		twccOp := func(base int, recv []bool) string {
+			var ss []string
+			var ds []int
+			for _, ok := range recv {
+				if ok {
+					ss = append(ss, "1")
+					ds = append(ds, r.Range(0, 255)*250)
+				} else {
+					ss = append(ss, "0")
+				}
+			}
+			return fmt.Sprintf("q twcc base=%d cnt=%d ref=%d chunks=V1:%s deltas=%s", base&0xFFFF, len(recv), r.Intn(1<<24), strings.Join(ss, "."), joinInts(ds))
+		}
+		flags := func(n int, v bool) []bool {
+			out := make([]bool, n)
+			for i := range out {
+				out[i] = v
+			}
+			return out
+		}
+		idle := func(k int) { // k reads without any acknowledgement-as-arrived of a sent packet
+			for ; k > 0; k-- {
+				ms += int64(r.Range(1, 30))
+				for j := r.Pick(0, 1, 1, 2); j > 0; j-- {
+					switch r.Intn(6) {
+					case 0, 1:
+						ops = append(ops, "q other")
+					case 2: // RFC 8888 report about a stream that was never sent
+						ops = append(ops, ccfbOp(ssrc+100, seq-r.Range(0, 5), flags(r.Range(1, 6), true)))
+					case 3: // feedback about numbers that were never sent (far away from the live range)
+						if useTW {
+							ops = append(ops, twccOp(tw+1000+r.Intn(30000), flags(r.Range(1, 6), true)))
+						} else {
+							ops = append(ops, ccfbOp(ssrc, seq+1000+r.Intn(30000), flags(r.Range(1, 6), true)))
+						}
+					case 4: // the other feedback format: its numbers are unknown to this history
+						if useTW {
+							ops = append(ops, ccfbOp(ssrc, seq-r.Range(0, 5), flags(r.Range(1, 6), true)))
+						} else {
+							ops = append(ops, twccOp(r.Pick(0, tw-2, r.Intn(65536)), flags(r.Range(1, 6), true)))
+						}
+					default: // feedback that says "not received" about the oldest outstanding packets
+						if len(sent) > 0 && r.Chance(1, 2) {
+							n := r.Range(1, min(len(sent), 4))
+							if useTW {
+								ops = append(ops, twccOp(int(sent[0].tw), flags(n, false)))
+							} else {
+								ops = append(ops, ccfbOp(ssrc, int(sent[0].seq), flags(n, false)))
+							}
+						}
+					}
+				}
+				ops = append(ops, "fb now="+c09ZS(c09At(ms)))
+			}
+		}
+		ack := func() { // a real acknowledgement of a prefix of the outstanding packets (some marked lost)
+			if len(sent) == 0 {
+				return
+			}
+			n := r.Range(1, len(sent))
+			recv := make([]bool, n)
+			for i := range recv {
+				recv[i] = !r.Chance(1, 5)
+			}
+			recv[n-1] = r.Chance(9, 10)
+			ms += int64(r.Range(1, 30))
+			if useTW {
+				ops = append(ops, twccOp(int(sent[0].tw), recv))
+			} else {
+				ops = append(ops, ccfbOp(ssrc, int(sent[0].seq), recv))
+			}
+			ops = append(ops, "fb now="+c09ZS(c09At(ms)))
+			sent = sent[n:]
+		}
+		idle(r.Pick(0, 0, 1, 2)) // before anything was sent
+		send(r.Pick(1, 1, 1, 2, 5))
+		idle(r.Pick(1, 1, 2, 3)) // after the first packet(s), before any acknowledgement
+		if r.Chance(1, 3) {
+			send(r.Range(1, 4))
+			idle(r.Range(1, 2))
+		}
+		for rounds := r.Range(1, 4); rounds > 0; rounds-- {
+			ack()
+			ops = append(ops, "hsizes")
+			idle(r.Pick(0, 1, 1, 2)) // between acknowledgements
+			send(r.Pick(0, 1, 2, 6))
+			idle(r.Pick(0, 1, 1))
+		}
+		for len(sent) > 0 && r.Chance(3, 4) {
+			ack()
+		}
+		idle(r.Range(1, 2)) // after the last acknowledgement
+		ops = append(ops, "hsizes")
 	}
 	return Case{Class: cl, Ops: ops}
 }
